@@ -56,11 +56,15 @@ def run(ctx):
         _bn = {m.base: m for m in facts.fns if m.config == cfg and m.cls == _c02.CLS and not m.rec.get("ctor") and not m.rec.get("dtor")}
         _c02.check_r4(_Renamed(ctx, "C02.R4", "C03.R9-cap-"), _bn, strict=True)
         queue_kind_tables(ctx, facts, cfg)
+        logger_keeps_what_it_is_given(ctx, facts, cfg)
         # nothing but the documented hold-back keeps an accepted statement in its queue: only a timestamp later than 'now - grace period'
         # of a non-user clock does, and only until time has passed (= C05.R2); the read position handed back after a node switch is the
         # new node's (= C20.R4)
         from rules import c05 as _c05
         _c05.r2(_Renamed(ctx, "C05.R2", "C03.R13"), facts, cfg)
+        # every buffered statement is selected at some point: the search for the oldest front event passes a candidate over only in
+        # favour of one already chosen (= C05.R3)
+        _c05.r3(_Renamed(ctx, "C05.R3", "C03.R15"), facts, cfg)
         if cfg == "A":
             # a statement made with run-time source metadata is turned into an ordinary Log event on every path of the decoder, whatever
             # its template looks like: no other kind of statement event is dispatched to the sinks (= C12.R9a)
@@ -592,6 +596,38 @@ def r7(ctx, facts, cfg):
     ctx.floor("C03.R7", "functions that consume queues/transit buffers", n, 5)
 
 
+def logger_keeps_what_it_is_given(ctx, facts, cfg):
+    """R14: 'each sink of its logger' are the sinks the logger was created with: the LoggerBase constructor stores every one of its
+    parameters in the member of the same name (initialiser list or body), none is dropped on the way"""
+    ctors = [f for f in facts.fns if f.config == cfg and f.cls == "quill::detail::LoggerBase" and f.rec.get("ctor") and len(f.rec.get("params") or []) >= 4]
+    if not ctors:
+        raise AnalysisBroken("LoggerBase constructor not found")
+    f = ctors[0]
+    stored = {}
+    for i in f.rec.get("inits") or []:
+        if i.get("written") and isnode(i.get("expr")):
+            for x in walk(i["expr"]):
+                if x["k"] == "DeclRefExpr" and x.get("dk") == "ParmVar":
+                    stored.setdefault(x["did"], set()).add(i.get("member"))
+    for n in f.walk():
+        sides = None
+        if n["k"] == "BinaryOperator" and n["op"] == "=":
+            sides = (n["lhs"], n["rhs"])
+        elif n["k"] == "CXXOperatorCallExpr" and short(n.get("callee") or "").endswith("operator=") and len(n.get("args") or []) == 2:
+            sides = (n["args"][0], n["args"][1])
+        if sides and is_this_field(sides[0]):
+            # on every path to the exit
+            if not f.g.exists_path([f.g.entry_node], [f.g.exit_node], avoid_nodes=f.g.positions(n)):
+                for x in walk(sides[1]):
+                    if x["k"] == "DeclRefExpr" and x.get("dk") == "ParmVar":
+                        stored.setdefault(x["did"], set()).add(strip(sides[0])["mname"])
+    params = f.rec["params"]
+    lost = [p["name"] for p in params if p["name"] not in (stored.get(p["did"]) or set())]
+    ctx.ob("C03.R14", "LoggerBase::LoggerBase:keeps-every-parameter", not lost,
+           "the logger's name, sinks, formatter options, clock source and user clock are each stored in the member of the same name on "
+           "every path (not stored: %s)" % (lost or "none"), fn=f)
+
+
 def transit_event_transfer(ctx, facts, cfg, rule):
     """exhaustive over the data members of TransitEvent: whatever moves or copies an event carries every member across (the
     per-thread buffer moves its events when it grows; the backtrace ring stores copies)"""
@@ -664,6 +700,8 @@ def transit_event_transfer(ctx, facts, cfg, rule):
             continue
         if n["k"] == "BinaryOperator" and n["op"] != "=":
             continue
+        if n["k"] == "CXXMemberCallExpr" and not re.search(r"::(append|assign|operator=|insert|push_back|emplace_back)$", short(n.get("callee") or "")):
+            continue        # reserve() / clear() / size() carry nothing across
         tgt = n["lhs"] if n["k"] == "BinaryOperator" else (n["args"][0] if n["k"] == "CXXOperatorCallExpr" and n.get("args") else call_obj(n))
         rest = [n["rhs"]] if n["k"] == "BinaryOperator" else (n["args"][1:] if n["k"] == "CXXOperatorCallExpr" else n.get("args") or [])
         tm = [x.get("mname") for x in walk(tgt) if x["k"] == "MemberExpr" and x.get("dk") == "Field" and var_ref(x.get("base")) == dst] if isnode(tgt) else []
@@ -671,9 +709,33 @@ def transit_event_transfer(ctx, facts, cfg, rule):
             if any(is_this_field(x, m) for r_ in rest for x in walk(r_)):
                 got.add(m)
     missing = [m for m in fields if m not in got]
-    ctx.ob(rule + "t", "TransitEvent::copy_to:every-member", not missing,
+    # the named args are copied exactly when this event has some: the copy sits on the positive outcome of the test of this->named_args
+    # and every path through that outcome makes it (the other outcome has nothing to copy: the destination is fresh, see below)
+    g_ = f.g
+    na_copy = []
+    for n in f.walk():
+        tgt = n["lhs"] if n["k"] == "BinaryOperator" and n["op"] == "=" else \
+            (n["args"][0] if n["k"] == "CXXOperatorCallExpr" and short(n.get("callee") or "").endswith("operator=") and len(n.get("args") or []) == 2 else None)
+        if tgt is not None and any(x["k"] == "MemberExpr" and x.get("mname") == "named_args" and var_ref(x.get("base")) == dst for x in walk(tgt)):
+            na_copy += g_.positions(n)
+    has_e = []
+    for bid, b in g_.blocks.items():
+        c = g_.term_cond(bid)
+        if c is None:
+            continue
+        core, neg = core_and_neg(c)
+        if any(is_this_field(x, "named_args") for x in walk(core)) and not any(var_ref(x.get("base")) == dst for x in walk(core) if x["k"] == "MemberExpr"):
+            nc_ = norm_cmp(c)
+            if nc_ and nc_[0] in ("==", "!="):
+                has_e.append((bid, "T" if nc_[0] == "!=" else "F"))     # compared with nullptr
+            else:
+                has_e.append((bid, "F" if neg else "T"))                 # truth test
+    na_ok = bool(na_copy) and (not has_e or (not g_.exists_path([g_.entry_node], na_copy, avoid_edges=has_e) and
+                                              all(not g_.exists_path([y for (y, l2) in g_.succ.get(tnode(g_, b), ()) if l2 == l], [g_.exit_node], avoid_nodes=na_copy) for (b, l) in has_e)))
+    ctx.ob(rule + "t", "TransitEvent::copy_to:every-member", not missing and na_ok,
            "copy_to — what the backtrace ring stores — writes every data member of the destination from the same member of this event "
-           "(missing: %s)" % missing, fn=f)
+           "(the text by append / assign, not by reserve) (missing: %s); the named args are copied exactly on the 'this event has some' "
+           "outcome: %s" % (missing, na_ok), fn=f)
     # copy_to appends to the destination's message buffer and leaves the destination's named args alone when this event has none:
     # it is only right for a destination that is freshly constructed — every caller hands it a local that was default-constructed and
     # not touched in between
